@@ -4,6 +4,7 @@ import (
 	"fmt"
 	"net"
 	"net/netip"
+	"os"
 	"strings"
 	"sync"
 	"time"
@@ -37,6 +38,30 @@ func freePort(ip string) int {
 		if port != 60000 {
 			return port
 		}
+	}
+	return 0
+}
+
+// unlistenedPort returns a port on ip at which nobody listens - and nobody will: it lies below the range the kernel assigns
+// ports from (32768..60999), so that no farm endpoint or client socket of this or any other process can be given it later (a
+// port that was merely free at the time it was chosen can become another process's farm endpoint a minute later, and the
+// requests meant to be refused would arrive there).
+func unlistenedPort(ip string) int {
+	seed := uint32(os.Getpid())*2654435761 + uint32(time.Now().UnixNano())
+	for try := 0; try < 200; try++ {
+		seed = seed*1664525 + 1013904223
+		port := 12000 + int(seed>>8)%18000
+		l, err := net.ListenTCP("tcp4", &net.TCPAddr{IP: net.ParseIP(ip), Port: port})
+		if err != nil {
+			continue
+		}
+		u, err2 := net.ListenUDP("udp4", &net.UDPAddr{IP: net.ParseIP(ip), Port: port})
+		l.Close()
+		if err2 != nil {
+			continue
+		}
+		u.Close()
+		return port
 	}
 	return 0
 }
@@ -263,7 +288,7 @@ func c06Loopback(c *Ctx) {
 				return
 			}
 			defer f.fm.Close()
-			refusedPort := freePort("127.0.0.1")
+			refusedPort := unlistenedPort("127.0.0.1")
 			// the farm answers every well-formed request with a valid reply for its function code
 			var cur struct {
 				sync.Mutex
